@@ -242,6 +242,8 @@ include!(concat!(env!("HASHBROWN_VERIF_DIR"), "/iterh.rs"));
 include!(concat!(env!("HASHBROWN_VERIF_DIR"), "/lifeh.rs"));
 #[cfg(not(kani))]
 include!(concat!(env!("HASHBROWN_VERIF_DIR"), "/panich.rs"));
+#[cfg(not(kani))]
+include!(concat!(env!("HASHBROWN_VERIF_DIR"), "/extrah.rs"));
 
 /// Declares obligations: each `h_*<S: Src>(&mut S) -> Chk` in `kani { }` becomes a Kani proof
 /// harness `raw::verif::k::h_*`; those and the ones in `native { }` (compiled only outside Kani)
